@@ -242,3 +242,31 @@ def _(run):
                    if isinstance(n, ast.Call) and ast.unparse(n.func).startswith('self.') and ast.unparse(n.func).endswith('.clear')}
     run.vc('every-container-created-by-init-is-cleared-or-schema-registry', z3.BoolVal(True), [],
            z3.BoolVal(all(c in cleared or c in conditional and c in ('_schemas', 'namespaces') for c in created)), 'init=' + ','.join(created))
+
+
+# ------------------------------------------------------------------ GlobalMaps.build: the order of the staged builds (C09)
+t = Target('builders.GlobalMaps.build.order', ['C09'], 'xmlschema/validators/builders.py', 'GlobalMaps.build',
+           note='the build order that makes the outcome independent of how declarations are split over documents: notations, attributes and attribute groups are built first, then '
+                'the default attribute group of EVERY schema document is resolved (a name becomes the group), and only then the types, elements and groups are built - a type parsed '
+                'while some document still holds an unresolved name silently gets no default attributes; each map is built exactly once',
+           assumes=['syntactic obligation on the real AST (no solver): order of the top-level statements of build()'])
+
+
+@t.symbolic
+def _(run):
+    import ast
+    ex = run.exec(); body = ex.fn.body
+    pos = {}
+    for i, s_ in enumerate(body):
+        src = ast.unparse(s_)
+        for m in ('notations', 'attributes', 'attribute_groups', 'types', 'elements', 'groups'):
+            if src == f'self.{m}.build()': pos.setdefault(m, []).append(i)
+        if isinstance(s_, ast.For) and 'default_attributes' in src: pos.setdefault('resolve_default_attributes', []).append(i)
+    run.paths = 1
+    once = all(len(pos.get(m, [])) == 1 for m in ('notations', 'attributes', 'attribute_groups', 'types', 'elements', 'groups', 'resolve_default_attributes'))
+    run.vc('every-map-built-exactly-once-at-top-level', z3.BoolVal(True), [], z3.BoolVal(once), 'build ' + str({k: v for k, v in pos.items()}))
+    if not once: return
+    p = {k: v[0] for k, v in pos.items()}
+    run.vc('attribute-groups-before-the-default-attribute-resolution', z3.BoolVal(True), [], z3.BoolVal(max(p['attributes'], p['attribute_groups']) < p['resolve_default_attributes']), 'build')
+    run.vc('default-attributes-resolved-before-types-elements-groups', z3.BoolVal(True), [], z3.BoolVal(p['resolve_default_attributes'] < min(p['types'], p['elements'], p['groups'])), 'build')
+    run.vc('types-before-elements-and-groups', z3.BoolVal(True), [], z3.BoolVal(p['types'] < min(p['elements'], p['groups'])), 'build')
